@@ -12,6 +12,7 @@ pub fn runs(property: &str, tier: Tier) -> u64 {
         "C01" | "C02" | "C03" | "C04" | "C05" | "C06" | "C08" | "C09"
         | "C10" | "C39" => (480, 12000),
         "C07" => (320, 6000),
+        "C12" | "C13" | "C14" | "C33" => (4000, 200000),
         _ => (160, 3000),
     };
     match tier { Tier::Quick => quick, Tier::Thorough => thorough }
@@ -151,6 +152,50 @@ pub fn describe(property: &str) -> Option<serde_json::Value> {
                  RFC 6487/9286 rules as documented in DESIGN.md appendix A",
                 "transport stubs: fake rsync executable, simulated HTTPS",
                 "validation_threads = 1 (schedules are explored separately)",
+            ],
+        }))
+    }
+    if crate::engc::profile(property, false).is_some() {
+        let what = match property {
+            "C12" => "the action list served to a client lagging two or more \
+                      versions (merged on demand from retained change sets) \
+                      equals element for element the direct change set \
+                      between the two data sets, and applying it yields the \
+                      current data",
+            "C13" => "every answer to (session, serial) through \
+                      PayloadSource::diff and /json-delta is a refusal or an \
+                      exact change set tagged with the current serial; \
+                      current serial => empty; the last min(history-size, \
+                      changes) serials must be served; never-issued serials \
+                      (future, +/-2^31, foreign session) must be refused",
+            "C14" => "serial after every run equals start + number of \
+                      data-changing runs; retained change sets <= \
+                      max(history-size, 1)",
+            "C33" => "a forced failing run (retryable or fatal) leaves \
+                      ready/session/serial/data/retained/ETag/Last-Modified/\
+                      created unchanged and wakes no notify subscriber",
+            _ => "history model",
+        };
+        return Some(json!({
+            "engine": "C (history): real SharedHistory driven through \
+                       Server::process_once, queried through PayloadSource \
+                       and the real HTTP dispatcher",
+            "level": "exploration",
+            "rule": format!(
+                "Each run: seeded history-size, start serial anywhere in the \
+                 32-bit space (incl. around 2^31 and 2^32), a sequence of \
+                 changing / non-changing / failing update cycles with the \
+                 simulated clock moving (same second, forward, backward), \
+                 and after each cycle a burst of client queries at every \
+                 issued serial, evicted serials, current+1, +/-2^31 and \
+                 random values; oracle: {what}. Non-trivial: at least one \
+                 update cycle; distinct = (history-size, start-serial class, \
+                 versions, changes, op-kind counts)."
+            ),
+            "assumptions": [
+                "data sets consist of route origins and router keys supplied \
+                 through local exception files (ASPA only via Engine A)",
+                "single-threaded; interleavings are Engine D's subject",
             ],
         }))
     }
